@@ -5,11 +5,12 @@ C09 driver: parses the case lines that the harness executes against the real bac
 Case lines (shared with harness/c09/c09.c):
   load reg /c09/reg | mode net|console | meh ok|raise|recurse | clone o<k> /c09/obj
   script <oid> <kind> <ops>      oid: u<k> | o<k> | k<k> (k-th connect attempt: ops = err | rej)
-                                 kind: logon | input | cmd:<verb> | netdead | hb | co:<tag> | reset | connect
+                                 kind: logon | input | cmd:<verb> | netdead | hb | co:<tag> | reset | cleanup | prompt | it:<tag> | connect
   vapply o<k> do_ops <ops>       ops at set-up time
-  step <action>...               tick[:<dt>] conn:c<k> send:c<k>:<text> close:c<k> cin:<text> idle
+  preload ok,err,...|epilog-err  preload_objects(): epilog() names one file p<i> per entry; `err` = that file fails to load
+  step <action>...               tick[:<dt>] conn:c<k> send:c<k>:<text> close:c<k> reset:c<k> cin:<text> idle
   run
-ops (';' separated): ok | err | cerr | dest:<oid|me> | co:<delay>:<tag> | hb:<n> | w:<text> | meh:<mode>
+ops (';' separated): ok | err | cerr | dest:<oid|me> | co:<delay>:<tag> | hb:<n> | w:<text> | meh:<mode> | it:<tag>
 -/
 import NV.Common.Proto
 import NV.C09.Model
@@ -41,6 +42,7 @@ def parseOp (s : String) : Option Op :=
   | ["hb", n] => n.toNat?.map Op.hb
   | ["w", t] => some (.w t)
   | ["meh", m] => (parseMeh m).map Op.meh
+  | ["it", tag] => some (.it tag)
   | _ => none
 
 def parseOps (s : String) : Option (List Op) :=
@@ -56,6 +58,9 @@ def parseKind (s : String) : Option Kind :=
   | ["hb"] => some .hb
   | ["co", t] => some (.co t)
   | ["reset"] => some .reset
+  | ["cleanup"] => some .cleanup
+  | ["prompt"] => some .prompt
+  | ["it", t] => some (.it t)
   | _ => none
 
 def parseClient (s : String) : Option Nat :=
@@ -68,6 +73,7 @@ def parseAction (s : String) : Option Action :=
   | ["conn", c] => (parseClient c).map Action.conn
   | ["send", c, t] => (parseClient c).map (fun c => Action.send c t)
   | ["close", c] => (parseClient c).map Action.close
+  | ["reset", c] => (parseClient c).map Action.reset
   | ["cin", t] => some (.cin t)
   | ["idle"] => some .idle
   | _ => none
@@ -75,6 +81,7 @@ def parseAction (s : String) : Option Action :=
 inductive Setup
   | clone (k : Nat)
   | ops (o : Oid) (l : List Op)
+  | preload (epilogRaises : Bool) (files : List (String × Bool))
 
 structure Parsed where
   mode : Mode := .net
@@ -92,6 +99,7 @@ def noteAction (x : Expect) : Action → Expect
   | .send c t => { x with sends := x.sends ++ [(c, t)] }
   | .cin t => { x with sends := x.sends ++ [(0, t)] }
   | .close c => { x with closed := c :: x.closed }
+  | .reset c => { x with closed := c :: x.closed }
   | _ => x
 
 def parseLine (p : Parsed) (line : String) : Parsed :=
@@ -122,6 +130,14 @@ def parseLine (p : Parsed) (line : String) : Parsed :=
     match parseOid o, parseOps ops with
     | some o, some l => { p with setup := p.setup ++ [.ops o l] }
     | _, _ => badl
+  | ["preload", "epilog-err"] => { p with setup := p.setup ++ [.preload true []] }
+  | ["preload", spec] =>
+    let bs := spec.splitOn ","
+    if bs.all (fun b => b == "ok" || b == "err") then
+      let files := (List.range bs.length).map (fun i => (s!"p{i + 1}", bs.getD i "ok" == "err"))
+      { p with setup := p.setup ++ [.preload false files],
+               expect := { p.expect with preloads := p.expect.preloads ++ files.map (·.1) } }
+    else badl
   | "step" :: acts =>
     let l := acts.map parseAction
     if l.all Option.isSome then
@@ -160,6 +176,7 @@ def applySetup (S : Scripts) (w : W) : Setup → W
     { w with objList := k :: w.objList,
              nextReset := fun x => if x = k then w.now + resetDuration / 2 else w.nextReset x }
   | .ops o l => (runOps (runHook S hookFuel) o l w).1
+  | .preload e files => preloadObjects e files w
 
 def w0Of (p : Parsed) (S : Scripts) : W :=
   p.setup.foldl (applySetup S) { mode := p.mode, meh := p.meh }
@@ -177,6 +194,12 @@ def render : Ev → String
   | .tHb o => s!"t hb {o.name}"
   | .tCo o t => s!"t co {o.name} {t}"
   | .tReset o => s!"t reset {o.name}"
+  | .tCleanup o => s!"t cleanup {o.name}"
+  | .tPrompt o => s!"t prompt {o.name}"
+  | .tEpilog => "t epilog"
+  | .tPreload n => s!"t preload {n}"
+  | .tIt o t l => (s!"t it {o.name} {t} {l}").trimAsciiEnd.toString
+  | .xIt o t => s!"x it {o.name} {t}"
   | .xErr who => s!"x err {who}"
   | .xCerr o => s!"x cerr {o.name}"
   | .xDest o t => s!"x dest {o.name} {t.name}"
@@ -205,6 +228,13 @@ def parseEv (line : String) : Ev :=
   | ["t", "hb", o] => match parseOid o with | some o => .tHb o | none => .crash line
   | ["t", "co", o, t] => match parseOid o with | some o => .tCo o t | none => .crash line
   | ["t", "reset", o] => match parseOid o with | some o => .tReset o | none => .crash line
+  | ["t", "cleanup", o] => match parseOid o with | some o => .tCleanup o | none => .crash line
+  | ["t", "epilog"] => .tEpilog
+  | ["t", "preload", n] => .tPreload n
+  | ["t", "prompt", o] => match parseOid o with | some o => .tPrompt o | none => .crash line
+  | ["t", "it", o, t] => match parseOid o with | some o => .tIt o t "" | none => .crash line
+  | ["t", "it", o, t, l] => match parseOid o with | some o => .tIt o t l | none => .crash line
+  | ["x", "it", o, t] => match parseOid o with | some o => .xIt o t | none => .crash line
   | ["x", "err", who] => .xErr who
   | ["x", "cerr", o] => match parseOid o with | some o => .xCerr o | none => .crash line
   | ["x", "dest", o, t] => match parseOid o, parseOid t with | some o, some t => .xDest o t | _, _ => .crash line
